@@ -1144,6 +1144,83 @@ pub fn payload_shapes(tier: &str, dir: &Path) -> Result<(usize, Vec<String>), St
     Ok((obs, viol))
 }
 
+/// A kill while a rotation is held: the memtable fills (rotation, new WAL log), the flush task is held
+/// at its first gate, 0..2 more events are stored into the new log, and the process is killed there.
+/// The next lifetime recovers more events than a memtable holds (two logs), reads, flushes and reads
+/// again: every acknowledged event exactly once in both reads. Returns (observations, violations).
+pub fn held_rotation_kill(tier: &str, dir: &Path) -> Result<(usize, Vec<String>), String> {
+    let cfgs: Vec<SysConfig> = configs(tier).into_iter().filter(|c| !(c.wal_buffered && !c.wal_flush_each_write) && c.shards == 1).collect();
+    let cfgs: Vec<SysConfig> = if tier == "quick" { cfgs } else { cfgs.into_iter().step_by(2).collect() };
+    let mut work = Vec::new();
+    for (ci, c) in cfgs.iter().enumerate() {
+        for extra in 0..3usize {
+            work.push((ci, c.clone(), extra));
+        }
+    }
+    let results = par_map(&work, threads(), |wi, (ci, cfg, extra)| -> Result<(usize, Vec<String>), String> {
+        let d = dir.join(format!("hk{wi}"));
+        let cap = cfg.capacity();
+        let n = cap + extra;
+        let mut l1 = vec![Op::Cmd { text: "DEFINE h FIELDS { k: \"int\" }".into() }, Op::Park { gate: "flush.queued".into(), shard: 0, seg: None, nth: 0 }];
+        for i in 0..n {
+            let text = format!("STORE h FOR c{} PAYLOAD {{\"k\":{i}}}", i % 2);
+            // every STORE runs to quiescence (the held flush task sits at its gate meanwhile), so that each
+            // acknowledged event is applied in the sense of this check before the kill
+            l1.push(Op::Cmd { text });
+        }
+        l1.push(Op::KillPoint);
+        let reads = vec!["QUERY h".to_string(), "REPLAY h FOR c0".to_string(), "REPLAY h FOR c1".to_string()];
+        let l2 = vec![Op::Observe { queries: reads.clone() }, Op::FlushSeq, Op::Observe { queries: reads.clone() }];
+        let lives: Vec<LifeSpec> = [l1, l2].into_iter().map(|ops| LifeSpec { ops, snap: SnapMode::Off, fsmon: false }).collect();
+        let res = run_lifetimes(&d, cfg, 41, &lives, false)?;
+        for (li, r) in res.iter().enumerate() {
+            if let Some(e) = &r.error {
+                return Err(format!("held rotation cfg#{ci} extra {extra} life {li}: {e}"));
+            }
+        }
+        let mut acked: Vec<i64> = Vec::new();
+        for (oi, op) in lives[0].ops.iter().enumerate() {
+            if let Op::Cmd { text } | Op::CmdNb { text } = op {
+                if text.starts_with("STORE ") && res[0].steps[oi].replies.first().map(|x| x.status) == Some(200) {
+                    acked.push(text.split("\"k\":").nth(1).and_then(|t| t.trim_end_matches('}').parse().ok()).unwrap_or(-1));
+                }
+            }
+        }
+        let mut viol = Vec::new();
+        let mut obs = 0;
+        for (oi, stage) in [(0usize, "after the restart"), (2, "after the restart and a flush")] {
+            obs += 1;
+            let st = &res[1].steps[oi];
+            let tag = format!("cfg#{ci} (memtable of {cap}, wal buffered={}) {} events, rotation held at flush.queued, kill; {stage}", cfg.wal_buffered, acked.len());
+            let mut got: Vec<i64> = st.replies[0].rows.iter().filter_map(|r| r.get("k").and_then(|v| v.as_i64())).collect();
+            got.sort();
+            let mut want = acked.clone();
+            want.sort();
+            if got != want {
+                viol.push(format!("{tag}: QUERY h returns k={got:?}, applied {want:?}"));
+            }
+            for (qi, c) in [(1usize, 0i64), (2, 1)] {
+                let mut g: Vec<i64> = st.replies[qi].rows.iter().filter_map(|r| r.get("k").and_then(|v| v.as_i64())).collect();
+                g.sort();
+                let w: Vec<i64> = want.iter().copied().filter(|k| k % 2 == c).collect();
+                if g != w {
+                    viol.push(format!("{tag}: REPLAY h FOR c{c} returns k={g:?}, applied {w:?}"));
+                }
+            }
+        }
+        let _ = std::fs::remove_dir_all(&d);
+        Ok((obs, viol))
+    });
+    let mut obs = 0;
+    let mut viol = Vec::new();
+    for r in results {
+        let (o, v) = r?;
+        obs += o;
+        viol.extend(v);
+    }
+    Ok((obs, viol))
+}
+
 pub fn check(tier: &str) -> i32 {
     let t0 = std::time::Instant::now();
     use Tok::*;
@@ -1275,6 +1352,16 @@ pub fn check(tier: &str) -> i32 {
             return 2;
         }
     };
+    // a kill while a rotation is held, then recovery of two logs into one memtable, read, flush, read
+    let (held_obs, held_viol) = match held_rotation_kill(tier, &scratch.dir) {
+        Ok(x) => x,
+        Err(e) => {
+            eprintln!("MACHINERY: {e}");
+            return 2;
+        }
+    };
+    let shape_obs = shape_obs + held_obs;
+    let shape_viol: Vec<String> = shape_viol.into_iter().chain(held_viol.into_iter()).collect();
     {
         let mut by_tag: BTreeMap<String, usize> = BTreeMap::new();
         for m in &shape_viol {
@@ -1326,7 +1413,7 @@ pub fn check(tier: &str) -> i32 {
             "determinism_canary_executions": canary.len() * 2,
             "unreproduced_observations": unreproduced.len(),
             "model_guided": {"model_depth": mdepth, "distinct_model_states": model_states, "model_transitions": model_transitions, "traces_beyond_the_exhaustive_depth": model_traces_total, "traces_replayed_on_the_implementation": mtraces.len(), "cap": mcap},
-            "payload_shapes": {"observations": shape_obs, "rule": "8 payload shapes over two event types (all fields optional: {}, nulls only, one or two values; one required field) x strong-clause configurations x flush {none, manual after the last store, automatic rotation of a four-event memtable}: store, kill point, restart, read by context (QUERY per type, REPLAY per context), store again, kill point, restart, read"},
+            "payload_shapes": {"observations": shape_obs, "rule": "(a) 8 payload shapes over two event types (all fields optional: {}, nulls only, one or two values; one required field) x strong-clause configurations x flush {none, manual after the last store, automatic rotation of a four-event memtable}: store, kill point, restart, read by context (QUERY per type, REPLAY per context), store again, kill point, restart, read; (b) a kill while a rotation is held: memtable full, flush task held at flush.queued, 0..2 more events into the new log, kill point; next lifetime recovers two logs into one memtable, reads, flushes, reads"},
             "buffered_wal_recovery_runs": st.buffered_recoveries,
             "buffered_wal_crash_points_with_an_allowed_suffix_loss": st.buffered_suffix_losses,
         }),
